@@ -74,10 +74,20 @@ def faults_for(kind, length):
 # workload
 
 
-def gen_base(seed, pool=False):
+SIZE_PROFILES = {
+    # sweeps repeat the whole in-memory fix for every single fault, so the every-change tier keeps
+    # to files that cost a fraction of a second; "big" still crosses the 8 KiB text buffer
+    "light": ["small"] * 14 + ["mid"] * 5 + ["big"],
+    "full": ["small"] * 6 + ["mid"] * 3 + ["big"] * 2 + ["huge"],
+}
+
+
+def gen_base(seed, pool=False, sizes="full"):
     """A fault-free --fix descriptor."""
     rng = substream(seed, "workload")
     ntargets = rng.choice([1, 1, 2, 3] if not pool else [2, 3, 4, 4])
+    if sizes == "light" and not pool:
+        ntargets = rng.choice([1, 1, 1, 2])
     dupfocus = pool and rng.random() < 0.15  # two tasks on one file, nothing else in the way
     if dupfocus:
         ntargets = rng.choice([1, 1, 2])
@@ -88,7 +98,7 @@ def gen_base(seed, pool=False):
         if r < 0.08 and not dupfocus:
             label, data, tags = "bad", rng.choice(workload.BAD_VHDL), ["unparseable"]
         else:
-            label, data = workload.pick_bytes(rng)
+            label, data = workload.pick_bytes(rng, rng.choice(SIZE_PROFILES[sizes]))
             tags, data = workload.perturb_bytes(rng, data)
         mode = rng.choice(workload.MODES)
         sandbox.append(workload.sb_entry(name, data, mode))
@@ -337,16 +347,16 @@ def judge(desc, env, refs=None):
 def plan(tier, seed):
     jobs = []
     if tier == "quick":
-        nsweep, nrand, npool = 24, 120, 160
+        nsweep, nrand, npool = 24, 100, 140
     else:
         nsweep, nrand, npool = 320, 3000, 4000
     for i in range(nsweep):
         for part in range(SWEEP_PARTS):
-            jobs.append({"prop": PROP, "mode": "sweep", "i": i, "part": part, "seed": H(seed, tier, PROP, "sweep", i)})
+            jobs.append({"prop": PROP, "mode": "sweep", "i": i, "part": part, "sizes": "light" if tier == "quick" else "full", "seed": H(seed, tier, PROP, "sweep", i)})
     for i in range(nrand):
-        jobs.append({"prop": PROP, "mode": "random", "i": i, "seed": H(seed, tier, PROP, "random", i)})
+        jobs.append({"prop": PROP, "mode": "random", "i": i, "sizes": "light" if tier == "quick" else "full", "seed": H(seed, tier, PROP, "random", i)})
     for i in range(npool):
-        jobs.append({"prop": PROP, "mode": "pool", "i": i, "seed": H(seed, tier, PROP, "pool", i)})
+        jobs.append({"prop": PROP, "mode": "pool", "i": i, "sizes": "light" if tier == "quick" else "full", "seed": H(seed, tier, PROP, "pool", i)})
     jobs += common.regress_jobs(PROP, 24 if tier == "quick" else 400)
     return jobs
 
@@ -361,7 +371,7 @@ def run_job(job, env):
     mode = job["mode"]
     seed = job["seed"]
     if mode == "sweep":
-        base = gen_base(seed, pool=False)
+        base = gen_base(seed, pool=False, sizes=job.get("sizes", "full"))
         base["hashseed_class"] = job.get("class", 0)
         # the sweep is over single-process runs without duplicate targets
         head, names = _argv_targets(base)
@@ -434,7 +444,7 @@ def run_job(job, env):
             out.violation(d, V)
         return out.done()
     pool = mode == "pool"
-    base = gen_base(seed, pool=pool)
+    base = gen_base(seed, pool=pool, sizes=job.get("sizes", "full"))
     base["hashseed_class"] = job.get("class", 0)
     refs = compute_refs(base, env)
     if refs is None:
